@@ -37,12 +37,14 @@ struct Event {
   int val = 0;
   std::vector<int> choices;  // in-build schedule prefix (rest = default 0)
   int cancelAt = -1;         // cancel the build when the step counter reaches this value
+  int failWriteAt = -1;      // the N-th database write (setRuleResult) of this build reports an error
   std::string str() const {
     std::string r(1, kind);
     if (kind != 'r' && kind != 'v') { r += ' '; r += key; }
     if (kind == 's') { r += ' '; r += char('0' + val); }
     if (kind == 'b') {
       if (cancelAt >= 0) r += " @" + std::to_string(cancelAt);
+      if (failWriteAt >= 0) r += " !" + std::to_string(failWriteAt);
       if (!choices.empty()) {
         r += " [";
         for (size_t i = 0; i < choices.size(); ++i) r += (i ? " " : "") + std::to_string(choices[i]);
@@ -74,6 +76,7 @@ inline bool parseHistory(const std::string& s, History& h) {
     if (e.kind == 'b') {
       while (is >> t) {
         if (t[0] == '@') e.cancelAt = atoi(t.c_str() + 1);
+        else if (t[0] == '!') e.failWriteAt = atoi(t.c_str() + 1);
         else {
           // choices: "[a" "b" "c]"
           std::string num;
@@ -136,7 +139,7 @@ public:
   BuildDBDelegate* del = nullptr;
   std::function<void(const DBRecord&)> onSet, onBeforeSet;
   std::function<void(uint64_t)> onIteration;
-  bool failNextSet = false;
+  std::function<bool(const DBRecord&)> shouldFail;  // injected write error (nothing reaches the database)
   explicit RecordingDB(std::unique_ptr<BuildDB> i) : inner(std::move(i)) {}
   void attachDelegate(BuildDBDelegate* d) override { del = d; inner->attachDelegate(d); }
   Epoch getCurrentEpoch(bool* ok, std::string* err) override { return inner->getCurrentEpoch(ok, err); }
@@ -156,6 +159,7 @@ public:
     rec.builtAt = res.builtAt;
     rec.computedAt = res.computedAt;
     for (auto d : res.dependencies) rec.deps.push_back({del->getKeyForID(d.keyID).str(), d.orderOnly, d.singleUse});
+    if (shouldFail && shouldFail(rec)) { if (err) *err = "injected database write error"; return false; }
     if (onBeforeSet) onBeforeSet(rec);
     bool r = inner->setRuleResult(id, rule, res, err);
     if (r && onSet) onSet(rec);
@@ -259,6 +263,7 @@ struct BuildObs {
   std::string executed;  // spec keys in createTask order
   std::string reasons;   // "k:R[:input]" list
   int steps = 0;
+  int writes = 0;        // database writes attempted by this build
   std::vector<std::pair<int, int>> trace;
   std::string orderFreeSummary() const {
     std::string ex = executed;
@@ -323,7 +328,10 @@ public:
   bool inBuild = false;
   Chooser* chooser = nullptr;
   int stepNo = 0, cancelAt = -1;
+  int writeNo = 0, failWriteAt = -1;
+  bool writeFailed = false;
   bool cancelIssued = false;
+  std::map<char, std::pair<bool, Sh>> diskBeforeComplete;  // persisted view of a rule before its completion in this build
   BuildObs* obs = nullptr;
   std::map<char, int> created;
   std::set<char> validFalse, doneThisBuild, completedThisBuild, statusComplete;
@@ -400,6 +408,19 @@ public:
       auto rec = new RecordingDB(std::move(inner));
       rdb = rec;
       rec->onSet = [this](const DBRecord& r) { onSetRuleResult(r); };
+      rec->shouldFail = [this](const DBRecord& r) {
+        if (++writeNo != failWriteAt) return false;
+        // the record is not persisted: the persisted view of the rule stays what it was
+        char k = specKey(r.key);
+        auto it = diskBeforeComplete.find(k);
+        if (it != diskBeforeComplete.end()) { if (it->second.first) disk[k] = it->second.second; else disk.erase(k); }
+        ev("db-write-error " + std::string(1, k));
+        // the engine abandons the build with this rule's task still registered: it counts as interrupted
+        statusComplete.erase(k);
+        doneThisBuild.erase(k);
+        writeFailed = true;
+        return true;
+      };
       rec->onBeforeSet = [this](const DBRecord& r) { if (traceSink) traceSink("R " + r.str()); };
       rec->onIteration = [this](uint64_t v) { lastIteration = v; };
       if (!engine->attachDB(std::unique_ptr<BuildDB>(rec), &err)) violate("db-attach-failed", err);
@@ -663,7 +684,10 @@ public:
       // can know: the persisted view follows it whether or not the engine chose
       // to write the record (an engine that skips the write must not thereby
       // justify the re-run it causes after a restart).
-      if (cfg.useDB) disk[k] = sh;
+      if (cfg.useDB) {
+        if (!diskBeforeComplete.count(k)) diskBeforeComplete[k] = {disk.count(k) != 0, disk.count(k) ? disk[k] : Sh()};
+        disk[k] = sh;
+      }
       if (cfg.checkProto && !completedThisBuild.count(k))
         violate("protocol-complete-without-completion", std::string("rule ") + k + " reported complete but its task never completed");
     } else if (cfg.checkC02 && created.count(k)) {
@@ -1003,6 +1027,7 @@ inline BuildObs Session::build(const Event& ev) {
   stepNo = 0;
   cancelAt = ev.cancelAt;
   cancelIssued = false;
+  writeNo = 0; failWriteAt = ev.failWriteAt; writeFailed = false; diskBeforeComplete.clear();
   created.clear(); validFalse.clear(); doneThisBuild.clear(); completedThisBuild.clear(); statusComplete.clear();
   running.clear(); pending.clear(); refCache.clear(); issuedDeps.clear(); completedValue.clear(); waitEdges.clear(); discoveredBy.clear(); withdrawnThisBuild.clear();
   cycleReported = false; cycleReports = 0; violationThisBuild = false;
@@ -1044,6 +1069,7 @@ inline BuildObs Session::build(const Event& ev) {
   verif::pointHookContext = savedCtx;
   chooser = nullptr;
   o.steps = stepNo;
+  o.writes = writeNo;
   o.trace = ch.trace;
   o.value = value;
   o.cancelled = cancelIssued;
@@ -1091,7 +1117,7 @@ inline BuildObs Session::build(const Event& ev) {
     violate("missed-cycle", std::string("build of ") + ev.key + " succeeded with '" + value + "' although it requires a dependency cycle");
   // -- C07
   if (cfg.checkC07) {
-    if (!o.cancelled && !engineCancelled) {
+    if (!o.cancelled && !engineCancelled && !writeFailed) {
       auto& rv = refOf(ev.key);
       if (rv.first && !o.cycle && !cfg.resolveForce && !o.success)
         violate("missed-cycle", std::string("build of ") + ev.key + " failed without reporting the dependency cycle");
